@@ -24,7 +24,7 @@ KNOWN = os.path.join(VERIF, "KNOWN_FINDINGS.txt")
 JOBS = vbuild.JOBS
 
 ASAN_OPTIONS = ("halt_on_error=0:detect_leaks=0:symbolize=1:alloc_dealloc_mismatch=0:new_delete_type_mismatch=0:"
-                "detect_odr_violation=0:allocator_may_return_null=1:max_allocation_size_mb=4096")
+                "detect_odr_violation=0:allocator_may_return_null=1:max_allocation_size_mb=4096:strict_memcmp=0")
 
 
 def base_env():
@@ -219,12 +219,12 @@ class Worker:
             return 0
 
 
-def run_campaign(binary, prop, strata, cases, size, lenscale, seed, thorough, param, logdir, max_restarts=6,
+def run_campaign(binary, prop, plan, lenscale, seed, thorough, param, logdir, max_restarts=6,
                  stall_s=900):
-    """Runs one worker per stratum, JOBS at a time.  Returns list of failure records
-    {type: 'falsified'|'crash'|'hang', case: path, worker: id}"""
+    """plan = [(stratum, cases, max_size)].  Runs one worker per entry, JOBS at a time.  Returns list of
+    failure records {type: 'falsified'|'crash'|'hang', case: path, worker: id}"""
     pending = [Worker(i, binary, prop, st, cases, size, lenscale, seed, thorough, param, logdir)
-               for i, st in enumerate(strata)]
+               for i, (st, cases, size) in enumerate(plan)]
     running, failures = [], []
     lost = 0
     while pending or running:
@@ -435,7 +435,7 @@ def check(prop, tier):
                 fails = run_libfuzzer(binary, prop, st, seed, logdir)
                 lost = 0
             else:
-                fails, lost = run_campaign(binary, prop, st["strata"], st["cases"], st["size"], st.get("lenscale", 1), seed,
+                fails, lost = run_campaign(binary, prop, st["plan"], st.get("lenscale", 1), seed,
                                            thorough, st.get("param", ""), logdir)
             m = merge_logs(logdir)
             engines[st.get("engine", "rapidcheck") + ":" + st["name"]] = m["evaluations"]
@@ -645,7 +645,7 @@ def cmd_survey(prop, tier):
     for si, st in enumerate(stages):
         logdir = os.path.join(RUN_DIR, "stage%d" % si)
         os.makedirs(logdir)
-        fails, lost = run_campaign(bins[st["binary"]], prop, st["strata"], st["cases"], st["size"], st.get("lenscale", 1), seed,
+        fails, lost = run_campaign(bins[st["binary"]], prop, st["plan"], st.get("lenscale", 1), seed,
                                    tier == "thorough", st.get("param", ""), logdir, max_restarts=30)
         for path in glob.glob(os.path.join(logdir, "w*.events")):
             for line in open(path, errors="replace"):
